@@ -71,6 +71,12 @@ CHECKS.update({
          'Every payload truncation and 13+ field replacements of one well-formed transaction of 6 kinds, 24 (type, vm) pairs each, 60 IBTP field mutations, and for all 572 dispatchable methods argument vectors of length 0, n-1, n, n+1 from 4 domains (quick: one third of these), each first/last in a block beside two valid transactions and followed by two blocks; oracle: process survives, one receipt per transaction in order with its hash, valid neighbours succeed, height +1, following blocks execute.',
          'finite mutation menu (listed in the evidence rule); EVM transactions not mutated', '5 C08'),
 })
+CHECKS.update({
+ 'C05': ('icmc', 'model_checking',
+         'explicit-state BFS over block histories of one-to-many groups on the real executor with the statement\'s invariants evaluated after every block',
+         'All block histories up to depth 4 (thorough 5) of child begins, success/failure/rollback receipts (duplicates, before begin, several per block) and empty blocks for three groups (2 children on 2 destination chains; first child refused by a blacklisting destination; 3 children with an unregistered destination), timeout 0 and 2: global SUCCESS only with all children succeeded; after a child failure or group timeout every status stays in the failure/rollback family; in the failing block the source chain is told about every begun child and each destination chain about its already-succeeded child.',
+         'a failure receipt for a child that already reported success is treated as implementation-defined (model follows the implementation, then holds it to the invariants)', '5 C05'),
+})
 REASON_WIP = 'check not built yet (work in progress; see DESIGN.md section 10)'
 def main():
     checks = []
@@ -100,7 +106,7 @@ def main():
         },
         'engines': [
             {'name': 'ledgermc', 'path': 'harness/checks/sl.go', 'serves_properties': ['C12', 'C13'], 'kind_free_text': 'explicit-state BFS (state = history, replay on fresh instance) over real StateLedger'},
-            {'name': 'icmc', 'path': 'harness/checks/ic.go', 'serves_properties': ['C02', 'C04', 'C06'], 'kind_free_text': 'explicit-state BFS over block histories of the real executor stepped with a reference model'},
+            {'name': 'icmc', 'path': 'harness/checks/ic.go', 'serves_properties': ['C02', 'C04', 'C05', 'C06'], 'kind_free_text': 'explicit-state BFS over block histories of the real executor stepped with a reference model'},
             {'name': 'chainmc', 'path': 'harness/checks/c09.go', 'serves_properties': ['C09', 'C14'], 'kind_free_text': 'explicit-state BFS over chain histories'},
             {'name': 'crashmc', 'path': 'harness/checks/c11.go', 'serves_properties': ['C11'], 'kind_free_text': 'crash-state enumeration from recorded writes'},
             {'name': 'poolmc', 'path': 'harness/checks/pool.go', 'serves_properties': ['C18', 'C19'], 'kind_free_text': 'explicit-state BFS over the real mempool'},
